@@ -734,11 +734,360 @@ func c16RunTextCSV(o *hx.Out, dir string, in bsInput, fl bsFlags) error {
 		o.Count("textcsv:nonbaseline-col-without-geomean")
 	}
 	o.Add(hx.L(hx.I(3), hx.List(tabs)), c16TC{Kind: "text-vs-csv", Input: in}, fmt.Sprint(in), multi, tags...)
-	return c16AddCsvTables(o, run.tables, in)
+	if err := c16AddCsvTables(o, run.tables, in); err != nil {
+		return err
+	}
+	return c16AddRun(o, run.tables, in, "generic")
+}
+
+// ---------- a whole run: Tables.ToText and Tables.ToCSV of the same Tables (kind 5) ----------
+
+// c16CSVRows splits CSV output into its spreadsheet rows: one per output line
+// (newlines inside quoted fields do not end a row), the empty line that
+// csv.Writer produces for the record [""] being a row of its own (encoding/csv's
+// reader would skip it).
+func c16CSVRows(b string) ([][]string, error) {
+	var rows [][]string
+	start, inq := 0, false
+	for i := 0; i < len(b); i++ {
+		switch b[i] {
+		case '"':
+			inq = !inq
+		case '\n':
+			if inq {
+				continue
+			}
+			line := b[start:i]
+			start = i + 1
+			if line == "" {
+				rows = append(rows, []string{""})
+				continue
+			}
+			rd := csv.NewReader(strings.NewReader(line))
+			rd.FieldsPerRecord = -1
+			rec, err := rd.Read()
+			if err != nil {
+				return nil, fmt.Errorf("c16: CSV line %q: %v", line, err)
+			}
+			rows = append(rows, rec)
+		}
+	}
+	if start != len(b) {
+		return nil, fmt.Errorf("c16: CSV output does not end in a newline")
+	}
+	return rows, nil
+}
+
+// c16TableWarnings is the set of distinct warning messages of one table (what
+// its text numbers as footnotes; the summary row only when the text shows it).
+func c16TableWarnings(t *vb.Table) map[string]bool {
+	set := map[string]bool{}
+	add := func(es []error) {
+		for _, e := range es {
+			set[e.Error()] = true
+		}
+	}
+	for _, rk := range t.Rows {
+		for i, ck := range t.Cols {
+			if cell, ok := t.Cells[vb.TableKey{Row: rk, Col: ck}]; ok {
+				add(cell.Sample.Warnings)
+				add(cell.Summary.Warnings)
+				if i > 0 && cell.Baseline != nil {
+					add(cell.Comparison.Warnings)
+				}
+			}
+		}
+	}
+	if len(t.Rows) > 1 {
+		for _, ck := range t.Cols {
+			if ts, ok := t.Summary[ck]; ok {
+				add(ts.Warnings)
+			}
+		}
+	}
+	return set
+}
+
+// c16AddRun records a whole run (kind 5): the names of the table-key fields and,
+// per table, the table key the in-process Tables report (its value of every
+// field) and the abstract table; the bytes Tables.ToText wrote; every
+// spreadsheet row Tables.ToCSV wrote and its warning stream. Nothing of the
+// header lines is handed over as input: model and specification predicate
+// derive them from the keys.
+func c16AddRun(o *hx.Out, tabs *vb.Tables, in bsInput, kind string, tags ...string) error {
+	if len(tabs.Tables) == 0 {
+		return nil
+	}
+	fields := tabs.Keys[0].Projection().FlattenedFields()
+	var names []string
+	for _, f := range fields {
+		names = append(names, f.Name)
+	}
+	var tx []hx.Sx
+	laterWarn, toEmpty, maxNotes, twoDigit := false, false, 0, 0
+	for i, t := range tabs.Tables {
+		var vals []string
+		for _, f := range fields {
+			vals = append(vals, tabs.Keys[i].Get(f))
+			if i > 0 && f.Name != ".unit" && tabs.Keys[i].Get(f) == "" && tabs.Keys[i-1].Get(f) != "" {
+				toEmpty = true
+			}
+		}
+		abs, _ := c16AbsTable(t)
+		tx = append(tx, hx.L(hx.SList(vals), abs))
+		nw := len(c16TableWarnings(t))
+		if i > 0 && nw > 0 {
+			laterWarn = true
+		}
+		if nw >= 10 {
+			twoDigit++
+		}
+		maxNotes = max(maxNotes, nw)
+	}
+	var text, cbuf, wbuf bytes.Buffer
+	if err := tabs.ToText(&text, false); err != nil {
+		return err
+	}
+	if err := tabs.ToCSV(&cbuf, &wbuf); err != nil {
+		return err
+	}
+	rows, err := c16CSVRows(cbuf.String())
+	if err != nil {
+		return err
+	}
+	var recx []hx.Sx
+	for _, rec := range rows {
+		recx = append(recx, hx.SList(rec))
+	}
+	o.Count("run:" + kind)
+	o.Count(fmt.Sprintf("run:tables=%d", min(len(tabs.Tables), 6)))
+	o.Count(fmt.Sprintf("run:keyfields=%d", min(len(fields), 5)))
+	if laterWarn {
+		o.Count("run:warnings-in-later-table")
+	}
+	if toEmpty {
+		o.Count("run:key-changes-to-empty")
+	}
+	if twoDigit > 0 {
+		o.Count("run:table-with>=10-footnotes")
+	}
+	o.Count(fmt.Sprintf("run:max-footnotes=%d", min(maxNotes/5*5, 30)))
+	o.Add(hx.L(hx.I(5), hx.SList(names), hx.List(tx), hx.S(text.String()), hx.List(recx), hx.S(wbuf.String())),
+		c16TC{Kind: "run/" + kind, Input: in}, "run:"+fmt.Sprint(in), laterWarn || twoDigit > 0, tags...)
+	return nil
+}
+
+func c16RunWhole(o *hx.Out, dir string, in bsInput, fl bsFlags, kind string) error {
+	if err := writeBsFiles(dir, in); err != nil {
+		return err
+	}
+	run := runBenchstatInProc(dir, in, fl)
+	if run.err != nil {
+		o.Count("run:pipeline-error")
+		return nil
+	}
+	return c16AddRun(o, run.tables, in, kind)
+}
+
+// c16Samples writes ns result lines of one benchmark: every unit measured
+// (units dropped with probability 0.1), values base*(1+k%) or all equal.
+func c16Samples(b *strings.Builder, r *hx.Rng, name string, ns int, base float64, units []string, equal bool) {
+	for s := 0; s < ns; s++ {
+		fmt.Fprintf(b, "Benchmark%s %d", name, r.Range(1, 100))
+		for ui, u := range units {
+			if r.Chance(0.1) {
+				continue
+			}
+			v := base * float64(ui+1)
+			if !equal {
+				v *= 1 + float64(s+r.Intn(3))/100
+			}
+			if u == "allocs/op" || u == "B/op" {
+				v = float64(int(v))
+			}
+			fmt.Fprintf(b, " %v %s", v, u)
+		}
+		b.WriteString("\n")
+	}
+}
+
+func c16PickUnits(r *hx.Rng, n int) []string {
+	perm := make([]int, len(bsUnits))
+	for i := range perm {
+		perm[i] = i
+	}
+	for i := len(perm) - 1; i > 0; i-- {
+		j := r.Intn(i + 1)
+		perm[i], perm[j] = perm[j], perm[i]
+	}
+	var us []string
+	for _, i := range perm[:n] {
+		us = append(us, bsUnits[i])
+	}
+	return us
+}
+
+// c16GenMultiTable: several tables in one run - 2-3 file configurations (some
+// lacking a key another has: the key header must change to the empty value),
+// 1-3 units, 1-3 files; few samples (no confidence interval), all-equal
+// samples, benchmark sets differing between files, zero values: warnings in
+// the second and later tables.
+func c16GenMultiTable(r *hx.Rng) (bsInput, bsFlags) {
+	type cfg map[string]string
+	pool := []cfg{
+		{"goos": "linux", "pkg": "p0"}, {"goos": "linux"}, {"pkg": "p0"}, {},
+		{"goos": "darwin", "pkg": "p1", "note": "x"}, {"goos": "linux", "pkg": "p1"}, {"note": "x"}, {"goos": "darwin"},
+	}
+	for i := len(pool) - 1; i > 0; i-- {
+		j := r.Intn(i + 1)
+		pool[i], pool[j] = pool[j], pool[i]
+	}
+	cfgs := pool[:r.Range(2, 3)]
+	keys := []string{"goos", "pkg", "note"}
+	units := c16PickUnits(r, r.Range(1, 3))
+	benches := []string{"A", "B/n=1", "C-8", "D/fmt=json"}[:r.Range(1, 4)]
+	nf := r.Range(1, 3)
+	sampleChoice := []int{1, 2, 3, 5, 6, 7, 10}
+	var in bsInput
+	for f := 0; f < nf; f++ {
+		var b strings.Builder
+		set := map[string]bool{}
+		nblocks := 0
+		for ci, c := range cfgs {
+			if !r.Chance(0.85) && !(ci == len(cfgs)-1 && nblocks == 0) {
+				continue
+			}
+			nblocks++
+			for _, k := range keys {
+				if v, ok := c[k]; ok {
+					fmt.Fprintf(&b, "%s: %s\n", k, v)
+					set[k] = true
+				} else if set[k] {
+					fmt.Fprintf(&b, "%s:\n", k) // unset
+					set[k] = false
+				}
+			}
+			b.WriteString("\n")
+			for bi, name := range benches {
+				if !r.Chance(0.8) {
+					continue // benchmark sets differ
+				}
+				base := float64(100*(bi+1) + 10*ci + f)
+				if r.Chance(0.08) {
+					base = 0
+				}
+				c16Samples(&b, r, name, sampleChoice[r.Intn(len(sampleChoice))], base, units, r.Chance(0.2))
+			}
+		}
+		in.Files = append(in.Files, bsFile{Name: fmt.Sprintf("f%d.txt", f), Content: b.String()})
+	}
+	fl := bsFlags{alpha: -1, confidence: -1}
+	switch r.Intn(10) {
+	case 0:
+		fl.table = "goos"
+	case 1:
+		fl.table = "pkg"
+		fl.ignore = "note"
+	case 2:
+		fl.table = "pkg"
+		fl.col = "goos"
+	case 3:
+		fl.table = ".config@alpha"
+	case 4:
+		fl.table = "goos,pkg"
+		fl.row = ".name"
+	}
+	switch r.Intn(8) {
+	case 0:
+		fl.confidence = 0.99
+	case 1:
+		fl.alpha = 0.01
+	}
+	in.Flags = fl.args()
+	return in, fl
+}
+
+// c16GenManyNotes: one table (per unit) with many DISTINCT warning messages, so
+// that the text needs footnote marks of two digits: "exact distribution
+// expected, but values range from X to Y" per cell (unit metadata
+// assume=exact, different values in every cell) and/or "benchmarks vary in
+// <fields>" with a different set of residue fields per cell (-row .name -table
+// pkg: goos, note and - through /n, /fmt - .fullname vary inside a cell), on
+// top of the few-samples, all-equal and geomean warnings.
+func c16GenManyNotes(r *hx.Rng) (bsInput, bsFlags) {
+	mode := r.Intn(3) // 0 exact, 1 vary, 2 both
+	units := c16PickUnits(r, r.Range(1, 2))
+	nf := r.Range(2, 3)
+	nb := r.Range(5, 8)
+	names := []string{"Fib", "Sort", "Enc", "Dec", "Hash", "Copy", "Zip", "Sum"}[:nb]
+	var subsets [][]string
+	res := []string{"/n", "/fmt", "goos", "note"}
+	for m := 1; m < 16; m++ {
+		var s []string
+		for i, f := range res {
+			if m&(1<<i) != 0 {
+				s = append(s, f)
+			}
+		}
+		subsets = append(subsets, s)
+	}
+	for i := len(subsets) - 1; i > 0; i-- {
+		j := r.Intn(i + 1)
+		subsets[i], subsets[j] = subsets[j], subsets[i]
+	}
+	var in bsInput
+	cell := 0
+	for f := 0; f < nf; f++ {
+		var b strings.Builder
+		if mode != 1 {
+			for _, u := range units {
+				if r.Chance(0.8) {
+					fmt.Fprintf(&b, "Unit %s assume=exact\n", u)
+				}
+			}
+		}
+		for bi, name := range names {
+			if r.Chance(0.1) {
+				continue
+			}
+			base := float64(100*(bi+1) + 7*f)
+			if mode == 0 {
+				c16Samples(&b, r, name, r.Range(2, 4), base, units, r.Chance(0.1))
+				continue
+			}
+			vary := map[string]bool{}
+			if r.Chance(0.85) {
+				for _, x := range subsets[cell%len(subsets)] {
+					vary[x] = true
+				}
+				cell++
+			}
+			nv := r.Range(2, 3)
+			for v := 0; v < nv; v++ {
+				pick := func(field string, x, y string) string {
+					if vary[field] && v%2 == 1 {
+						return y
+					}
+					return x
+				}
+				fmt.Fprintf(&b, "goos: %s\nnote: %s\n", pick("goos", "linux", "darwin"), pick("note", "r0", "r1"))
+				full := fmt.Sprintf("%s/n=%s/fmt=%s", name, pick("/n", "1", "10"), pick("/fmt", "json", "gob"))
+				c16Samples(&b, r, full, r.Range(1, 3), base, units, r.Chance(0.15))
+			}
+		}
+		in.Files = append(in.Files, bsFile{Name: fmt.Sprintf("f%d.txt", f), Content: b.String()})
+	}
+	fl := bsFlags{alpha: -1, confidence: -1}
+	if mode != 0 {
+		fl.row = ".name"
+		fl.table = "pkg"
+	}
+	in.Flags = fl.args()
+	return in, fl
 }
 
 func genC16(o *hx.Out, r *hx.Rng, tier string, replay string) error {
-	o.Rule = "text vs CSV: C14-style generated benchstat inputs (1-3 files, flag grid, missing cells, units with/without metadata, single-row tables) with extra zero/negative measurements (columns without geomean), run in process; per table the real ToText text and the real ToCSV records+warnings are compared cell by cell; per run the real Tables.ToCSV output (all records incl. blank separators and table-key header lines, warning stream) against the multi-table model, and every cell reference must name a data/summary record of its table. benchtab: the real parse->Builder->ToTables->Table.ToText pipeline on 1-3 generated files (random/disjoint benchmark subsets, 1-7 samples, 1-2 units, -col .file | /format | .file,/format | goos): right borders of all header lines aligned, bars nested, no text beyond the border, no trailing blanks. texttab: random API call sequences (1-8 rows, 1-10 columns, spans 1-6 wider/narrower than the cells beneath, shrink patterns 0/30/60/100% incl. all-shrink spans, empty/blank cells, multi-byte text, margins) and benchstat-shaped tables with missing benchmarks; KeyHeader: random key slices over 1-4 fields with small value domains (incl. empty values, repeated non-adjacent prefixes). non-trivial = table has a multi-column span / header merges at least one pair of keys"
+	o.Rule = "text vs CSV: C14-style generated benchstat inputs (1-3 files, flag grid, missing cells, units with/without metadata, single-row tables) with extra zero/negative measurements (columns without geomean), run in process; per table the real ToText text and the real ToCSV records+warnings are compared cell by cell; per run the real Tables.ToCSV output (all records incl. blank separators and table-key header lines, warning stream) against the multi-table model, and every cell reference must name a data/summary record of its table; whole runs (the generic inputs plus multi-table inputs: 2-3 file configurations some lacking keys the others have, 1-3 units, 1-3 files, 1-10 samples, all-equal samples, differing benchmark sets, zero values, -table goos|pkg|goos,pkg|.config@alpha; and many-notes inputs: 5-8 benchmarks x 2-3 files with assume=exact and/or residue fields varying inside the cells, 10-30 different warnings in one table): the real Tables.ToText and Tables.ToCSV outputs against the table keys and tables the in-process Tables report - header lines reconstruct every table key in both renderings, per table text vs CSV with the warnings looked up at the real spreadsheet row, every reported warning names exactly its cell, footnote numbers distinct. benchtab: the real parse->Builder->ToTables->Table.ToText pipeline on 1-3 generated files (random/disjoint benchmark subsets, 1-7 samples, 1-2 units, -col .file | /format | .file,/format | goos): right borders of all header lines aligned, bars nested, no text beyond the border, no trailing blanks. texttab: random API call sequences (1-8 rows, 1-10 columns, spans 1-6 wider/narrower than the cells beneath, shrink patterns 0/30/60/100% incl. all-shrink spans, empty/blank cells, multi-byte text, margins) and benchstat-shaped tables with missing benchmarks; KeyHeader: random key slices over 1-4 fields with small value domains (incl. empty values, repeated non-adjacent prefixes). non-trivial = table has a multi-column span / header merges at least one pair of keys"
 	n := 3000
 	if tier == "thorough" {
 		n = 150000
@@ -840,6 +1189,45 @@ func genC16(o *hx.Out, r *hx.Rng, tier string, replay string) error {
 			rows = append(rows, row)
 		}
 		if err := c16AddKeys(o, fieldNames[:nf], rows); err != nil {
+			return err
+		}
+	}
+	// whole runs (kind 5). Witnesses: the second table lacks the key "pkg" the
+	// first one has (header must change to the empty value) and carries the
+	// warnings; a table with 12 different warnings.
+	{
+		w := bsInput{Files: []bsFile{
+			{Name: "f0.txt", Content: "pkg: p0\nBenchmarkA 1 10 ns/op\nBenchmarkA 1 11 ns/op\nBenchmarkA 1 12 ns/op\nBenchmarkA 1 13 ns/op\nBenchmarkA 1 14 ns/op\nBenchmarkA 1 15 ns/op\n" +
+				"pkg:\nBenchmarkA 1 10 ns/op\nBenchmarkB 1 20 ns/op\nBenchmarkB 1 20 ns/op\n"},
+			{Name: "f1.txt", Content: "BenchmarkA 1 10 ns/op\nBenchmarkB 1 20 ns/op\nBenchmarkB 1 20 ns/op\nBenchmarkC 1 5 ns/op\n"}}}
+		flw := bsFlags{alpha: -1, confidence: -1}
+		if err := c16RunWhole(o, dir, w, flw, "witness"); err != nil {
+			return err
+		}
+		var b0, b1 strings.Builder
+		b0.WriteString("Unit ns/op assume=exact\n")
+		for i := 1; i <= 6; i++ {
+			fmt.Fprintf(&b0, "BenchmarkX%d 1 %d ns/op\nBenchmarkX%d 1 %d ns/op\n", i, 10*i, i, 10*i+1)
+			fmt.Fprintf(&b1, "BenchmarkX%d 1 %d ns/op\nBenchmarkX%d 1 %d ns/op\n", i, 10*i+2, i, 10*i+3)
+		}
+		w2 := bsInput{Files: []bsFile{{Name: "f0.txt", Content: b0.String()}, {Name: "f1.txt", Content: b1.String()}}}
+		if err := c16RunWhole(o, dir, w2, flw, "witness"); err != nil {
+			return err
+		}
+	}
+	nmt, nmn := 130, 70
+	if tier == "thorough" {
+		nmt, nmn = 2600, 1400
+	}
+	for i := 0; i < nmt; i++ {
+		in, fl := c16GenMultiTable(r.Split())
+		if err := c16RunWhole(o, dir, in, fl, "multi-table"); err != nil {
+			return err
+		}
+	}
+	for i := 0; i < nmn; i++ {
+		in, fl := c16GenManyNotes(r.Split())
+		if err := c16RunWhole(o, dir, in, fl, "many-notes"); err != nil {
 			return err
 		}
 	}
